@@ -1,6 +1,15 @@
 #!/bin/bash
-# every stored seeded change must apply to the current /repo HEAD
-cd /repo; rc=0
+# every stored seeded change must apply to the current /repo HEAD AND leave the touched Python files compilable
+# (a patch that "applies" after a fuzzy port but no longer compiles would make every unit crash instead of being judged)
+W=$(mktemp -d /tmp/seedchk_XXXXXX); rsync -a --exclude .git --exclude '*.pickle' /repo/ $W/; cd $W; git init -q . >/dev/null 2>&1; git add -A >/dev/null 2>&1; git -c user.email=x@x -c user.name=x commit -qm base >/dev/null 2>&1
+rc=0
 for d in /verif/seeded/*/; do
-  if git apply --check "$d/patch.diff" 2>/dev/null; then echo "ok   $(basename $d)"; else echo "FAIL $(basename $d)"; rc=1; fi
-done; exit $rc
+  n=$(basename $d)
+  if git apply "$d/patch.diff" 2>/dev/null; then
+    bad=""
+    for f in $(git diff --name-only | grep '\.py$'); do /venv/bin/python -m py_compile "$f" 2>/dev/null || bad="$bad $f"; done
+    if [ -n "$bad" ]; then echo "FAIL $n (does not compile:$bad)"; rc=1; else echo "ok   $n"; fi
+    git checkout -q -- . ; git clean -fdq
+  else echo "FAIL $n (does not apply)"; rc=1; fi
+done
+cd /; rm -rf $W; exit $rc
